@@ -101,7 +101,9 @@ static std::string checkLP(const SPxLPBase<T>& lp, const char* tag)
    std::ostringstream o;
    int m = lp.nRows(), n = lp.nCols();
    long nnzR = 0, nnzC = 0;
-   int badidx = 0, dup = 0, zero = 0, nan = 0, lbub = 0, lhsrhs = 0, mirror = 0;
+   int badidx = 0, dup = 0, zero = 0, nan = 0, lbub = 0, lhsrhs = 0, mirror = 0, infc = 0;
+   const T big = T(1e100);
+   const T mbig = T(-1e100);
    std::map<std::pair<int, int>, T> byRow;
 
    for(int i = 0; i < m; i++)
@@ -128,6 +130,8 @@ static std::string checkLP(const SPxLPBase<T>& lp, const char* tag)
 
          if(isNaN(r.value(k)))
             nan++;
+         else if(r.value(k) >= big || r.value(k) <= mbig)
+            infc++;
 
          byRow[std::make_pair(i, j)] = r.value(k);
       }
@@ -176,6 +180,9 @@ static std::string checkLP(const SPxLPBase<T>& lp, const char* tag)
          nan++;
       else if(lp.lower(j) > lp.upper(j))
          lbub++;
+
+      if(lp.maxObj(j) >= big || lp.maxObj(j) <= mbig)
+         infc++;
    }
 
    if(dup == 0 && (long) byRow.size() != matched)
@@ -185,7 +192,22 @@ static std::string checkLP(const SPxLPBase<T>& lp, const char* tag)
       mirror++;
 
    o << "lp " << tag << " m=" << m << " n=" << n << " nnz=" << nnzR << " mirror_bad=" << mirror << " badidx=" << badidx
-     << " dup=" << dup << " zero=" << zero << " nan=" << nan << " lb_gt_ub=" << lbub << " lhs_gt_rhs=" << lhsrhs;
+     << " dup=" << dup << " zero=" << zero << " nan=" << nan << " inf_coef=" << infc << " lb_gt_ub=" << lbub << " lhs_gt_rhs=" << lhsrhs;
+
+   if(infc > 0)
+      o << "\ninconsistent infinite-coefficient " << tag << " " << infc;
+
+   if(badidx > 0)
+      o << "\ninconsistent index-range " << tag << " " << badidx;
+
+   if(dup > 0)
+      o << "\ninconsistent duplicate-entries " << tag << " " << dup;
+   else if(mirror > 0)
+      o << "\ninconsistent mirror " << tag << " " << mirror;
+
+   if(nan > 0)
+      o << "\ninconsistent nan-in-data " << tag << " " << nan;
+
    return o.str();
 }
 
@@ -338,6 +360,36 @@ static void clearReloadSolve(SP& s, bool expectOptimal)
 
 static void testModel(const std::string& test, const char* path)
 {
+   // gate: the bare real reader, without solver object, sync or presolver.  An LP that comes out of it with duplicate
+   // entries, NaN or unmirrored storage is the finding; feeding it to the solver would only produce consequences.
+   {
+      SPxOut po;
+      po.setVerbosity(SPxOut::ERROR);
+
+      for(int v = SPxOut::ERROR; v <= SPxOut::INFO3; v++)
+         po.setStream((SPxOut::Verbosity)v, devnull);
+
+      SPxLPBase<double> pre;
+      pre.setOutstream(po);
+      pre.setTolerances(std::make_shared<Tolerances>());
+      NameSet prn, pcn;
+      bool pok = pre.readFile(path, &prn, &pcn);
+      printf("preread ok=%d m=%d n=%d\n", pok, pre.nRows(), pre.nCols());
+
+      if(pok)
+      {
+         std::string r = checkLP(pre, "preread");
+         printf("%s\n", r.c_str());
+
+         if(r.find("\ninconsistent") != std::string::npos)
+         {
+            printf("skipped the LP is not self-consistent\ndone\n");
+            fflush(stdout);
+            return;
+         }
+      }
+   }
+
    SP s;
    quiet(s);
    bool rat = test != "lp-real";
@@ -561,6 +613,12 @@ static int childMain(const std::string& test, const std::string& path, const std
       fflush(stdout);
       return 3;
    }
+   catch(const std::bad_alloc& e)
+   {
+      printf("exception bad_alloc %s\n", e.what());
+      fflush(stdout);
+      return 3;
+   }
    catch(const std::exception& e)
    {
       printf("exception std %s\n", e.what());
@@ -773,6 +831,8 @@ static int runMpsLine(const char* casefile)
                 (int) mps->m_is_new_format, (int) mps->m_is_integer);
       }
 
+      fflush(stdout);
+
       if(!hung)
          delete mps;
    }
@@ -851,6 +911,7 @@ static int runLpfTok(const char* casefile)
       else
          printf("?\n");
 
+      fflush(stdout);
       free(buf);
    }
 
